@@ -65,6 +65,16 @@ CLAIMED["C01"] = dict(
     technique="Lean 4: safety induction over the mutually recursive transition/update_counter with a fuel measure + bounded call-level walker; differential correspondence incl. panic class; monitor for the work bound",
 )
 
+CLAIMED["C11"] = dict(
+    text="Proof (Lean 4): bincode round trip dec(enc m ++ r) = (m, r) for every representable machine (floats as raw bits, NaN payloads survive), base64 round trip, "
+         "fromStr(serialize m) = m and identical re-serialisation (hence name) for every valid machine whose encoding fits 1 MiB under the stated zlib contract (a hypothesis, checked "
+         "against the real flate2 path on every run), fromStr never panics and only yields validated machines for every string and every zlib behaviour, the legacy v1 parser never "
+         "indexes out of bounds. Correspondence on valid, hostile, v1 and bomb streams; peak allocation on bombs is measured as supporting evidence only.",
+    ref="6 (C11)",
+    technique="Lean 4 structural round-trip proofs over a bincode/base64/v1-parser model with zlib as a parameter + differential correspondence (valid, mutated, bomb strings)",
+    note="Trusted in addition: zlib (flate2/miniz_oxide) is a parameter with a stated contract, validated on every run; heap use is outside the model (measured only); bincode/serde derive output is modelled and validated on every generated machine.",
+)
+
 PENDING = {}
 
 ALL = [f"C{i:02d}" for i in range(1, 21)]
